@@ -18,7 +18,7 @@ GenView == vars
 
 Design == [UnlockAt |-> UnlockAt, RefRelease |-> RefRelease, SeqAtomic |-> SeqAtomic,
            DryRunAllocates |-> DryRunAllocates, DryRunPublishes |-> DryRunPublishes,
-           RevertEventSwapped |-> RevertEventSwapped, MetaSourceLocked |-> MetaSourceLocked,
+           RevertEventSwapped |-> RevertEventSwapped, ReplayFromRequest |-> ReplayFromRequest, MetaSourceLocked |-> MetaSourceLocked,
            AckWaitsPersist |-> AckWaitsPersist, IkSpan |-> IkSpan, RevertGuard |-> RevertGuard,
            MetaLogsCarryIk |-> MetaLogsCarryIk, CancelAbortsWait |-> CancelAbortsWait]
 
